@@ -43,6 +43,9 @@ def tasks_for(tier):
             out.append((base + 500 + i, SHAPES[(i // 2) % len(SHAPES)], 'zxy'[(i // 2) % 3], 3, 1, 'rhp', False))
         else:
             out.append((base + 500 + i, SHAPES[(i // 2) % len(SHAPES)], 'zxy'[(i // 2) % 3], 2 + (i % 4 == 3), 1, 'planes', True))
+    # prism axis that is not a coordinate axis (rational orthonormal frame, tilted in the yz plane)
+    for i in range(2 if tier == 'quick' else 40):
+        out.append((base + 700 + 2 * i, SHAPES[(2 * i) % len(SHAPES)], 't', 2 if tier == 'quick' else 2 + (i % 2), 1, 'planes', False))
     return out
 
 
@@ -50,14 +53,14 @@ def run(tier):
     rep = Report(PROP, tier, 'translation_validation')
     rep.functions = FUNCTIONS
     tasks = tasks_for(tier)
-    for r in run_pool(worker, tasks, limit_s=90 if tier == 'quick' else 600):
+    for r in run_pool(worker, tasks, limit_s=200 if tier == 'quick' else 600):
         rep.merge(r)
     rep.explanation = ('LAT=2 decks with symbolic centre/scale/axial bounds/placement through the real pipeline; per path and provenance label z3 decides '
                        'equality of the written volumes with the union of the reference hexagonal elements, point symbolic.')
-    rep.bounds = {'decks': len(tasks), 'hexagons': SHAPES, 'axes': 'x, y, z', 'elements_per_lattice': '<= 6',
+    rep.bounds = {'decks': len(tasks), 'hexagons': SHAPES, 'axes': 'x, y, z and one tilted axis (0, -4/5, 3/5)', 'elements_per_lattice': '<= 6',
                   'symbolic': 'at most 2 of: centre, scale, axial bounds, fill displacement; the point',
                   'cell forms': 'six or eight planes; the macrobody RHP/HEX with 15 entries (concrete size, symbolic place); a second lattice with the same side directions',
-                  'outside': ['exactly regular hexagons (irrational normals)', 'RHP with 9 entries as a lattice cell (rotation by 60 degrees: irrational)', 'tilted prism axes', 'symbolic side directions']}
+                  'outside': ['exactly regular hexagons (irrational normals)', 'RHP with 9 entries as a lattice cell (rotation by 60 degrees: irrational)', 'tilted prism axes other than the one listed', 'symbolic side directions']}
     rep.assumptions = ['MCNP hexagonal indexing: [1,0,0] across the first-listed plane, [0,1,0] across the third-listed, [0,0,1] across the seventh']
     rep.cov['rule'] = 'program = one generated deck; case = (deck, path, label); distinct = distinct (deck, path condition)'
     return rep.finish()
